@@ -721,6 +721,21 @@ func (e *Enc) enterLoop(fr *Frame, li *loopInfo, preds []*ssa.BasicBlock, conds 
 			}
 		}
 	}
+	// 1b. entry assertions: hold when the loop is first reached (per entry edge); not assumed
+	if len(ann.Entries) > 0 {
+		for k, p := range preds {
+			ov := map[ssa.Value]Val{}
+			pi := predIndex(b, p)
+			for _, phi := range li.phis {
+				ov[phi] = e.val(fr, phi.Edges[pi])
+			}
+			for j, ent := range ann.Entries {
+				ctx := &ExprCtx{e: e, fr: fr, st: sts[k], old: e.entry, block: b, idx: len(li.phis), phiOverride: ov, atLoopHead: li, fc: e.frameContract(fr)}
+				g := ctx.boolExpr(ent.Expr)
+				e.addObligation("loop-entry", fmt.Sprintf("loop%d#%d", li.ordinal, j), conds[k], g, ent.Text)
+			}
+		}
+	}
 	// 2. havoc what the loop modifies
 	mods := e.loopMods[b]
 	if e.pass == 1 || mods == nil {
